@@ -195,11 +195,17 @@ class PKESessionKeyV3(PKESessionKey):
         self._opaque_ct = bytearray()
 
     def __bytearray__(self):
+        _body = bytearray()
+        _body += binascii.unhexlify(self.encrypter.encode())
+        _body += bytearray([self.pkalg])
+        _body += self.ct.__bytearray__() if self.ct is not None else self._opaque_ct
+        # multiprecision integers are written in their shortest form, which need not be the one that was read:
+        # the header has to count the version octet and the octets written here
+        self.header.length = 1 + len(_body)
+
         _bytes = bytearray()
         _bytes += super(PKESessionKeyV3, self).__bytearray__()
-        _bytes += binascii.unhexlify(self.encrypter.encode())
-        _bytes += bytearray([self.pkalg])
-        _bytes += self.ct.__bytearray__() if self.ct is not None else self._opaque_ct
+        _bytes += _body
         return _bytes
 
     def __copy__(self):
@@ -437,15 +443,20 @@ class SignatureV4(Signature):
         self.signature = None
 
     def __bytearray__(self):
+        _body = bytearray()
+        _body += self.int_to_bytes(self.sigtype)
+        _body += self.int_to_bytes(self.pubalg)
+        _body += self.int_to_bytes(self.halg)
+        _body += self.subpackets.__bytearray__()
+        _body += self.hash2
+        _body += self.signature.__bytearray__()
+        # multiprecision integers are written in their shortest form, which need not be the one that was read:
+        # the header has to count the version octet and the octets written here
+        self.header.length = 1 + len(_body)
+
         _bytes = bytearray()
         _bytes += super(Signature, self).__bytearray__()
-        _bytes += self.int_to_bytes(self.sigtype)
-        _bytes += self.int_to_bytes(self.pubalg)
-        _bytes += self.int_to_bytes(self.halg)
-        _bytes += self.subpackets.__bytearray__()
-        _bytes += self.hash2
-        _bytes += self.signature.__bytearray__()
-
+        _bytes += _body
         return _bytes
 
     def canonical_bytes(self):
